@@ -78,13 +78,21 @@ fn decode_check_one<T: Pixel>(
     roundtrip: Option<&mut RtStats>,
 ) {
     let u8s = std::mem::size_of::<T>() == 1;
-    let cfg = cfg444(m, full, n);
-    let yuv: Yuv<T> = mk_yuv(tri, cfg);
+    // the YUV<->RGB stage uses matrix, range and depth only: the transfer / primaries labels rotate through every enum
+    // value (reserved and unsupported ones too), and every third call leaves them Unspecified in the request
+    let rot = ci * 7 + tri.len();
+    let raw = if rot % 3 == 0 {
+        YuvConfig { transfer_characteristics: TC::Unspecified, color_primaries: CP::Unspecified, ..cfg444(m, full, n) }
+    } else {
+        YuvConfig { transfer_characteristics: ALL_TC[rot % ALL_TC.len()], color_primaries: ALL_CP[(rot / 5) % ALL_CP.len()], ..cfg444(m, full, n) }
+    };
+    let yuv: Yuv<T> = mk_yuv(tri, raw);
+    let cfg = yuv.config(); // == raw unless a field was Unspecified
     let rgb = match Rgb::try_from(&yuv) {
         Ok(r) => r,
         Err(e) => {
             ev::violation(
-                format!("C01|decode-error|{m:?}"),
+                format!("{}|decode-error|{m:?}", if roundtrip.is_some() { "C08" } else { "C01" }),
                 format!("Rgb::try_from(&Yuv) failed with {e:?} for a standard matrix"),
                 J::obj().set("kind", "decode").set("matrix", format!("{m:?}")).set("full", full).set("n", n).set("u8", u8s).set("yuv", tri[0]),
             );
@@ -129,8 +137,8 @@ fn decode_check_one<T: Pixel>(
     stats.grey.fetch_add(gr, Relaxed);
 
     if let Some(rt) = roundtrip {
-        // C08: encode again with the same config and compare sample by sample
-        let back: Yuv<T> = match Yuv::try_from((&rgb, cfg)) {
+        // C08: encode again with the config the caller has (the raw request) and compare sample by sample
+        let back: Yuv<T> = match Yuv::try_from((&rgb, raw)) {
             Ok(b) => b,
             Err(e) => {
                 ev::violation(
@@ -430,9 +438,59 @@ fn run_decode(ctx: &Ctx, prop: &str, roundtrip: bool) {
     }
 }
 
+/// C01 on images the library's own encoder produced (not wrapped by `Yuv::new`): RGB from [-0.5, 1.5]^3, so that the
+/// codes include super-white, sub-black and out-of-gamut values; the decode is judged from the codes it was given.
+fn decode_encoder_output(ctx: &Ctx) {
+    let cfgs = configs();
+    let n_img = AtomicU64::new(0);
+    ev::par_ranges("C01", cfgs.len() as u64, 1, |_w, a, _b| {
+        let ci = a as usize;
+        let (m, full, n) = cfgs[ci];
+        let mut rng = Rng::new(ctx.seed, 0xE0C0_0000 + a);
+        let npx = if ctx.flag("lite") { 512 } else { 4099 };
+        let px: Vec<[f32; 3]> = (0..npx).map(|i| if i % 4 == 0 { [rng.range(-0.5, 1.5) as f32, rng.range(-0.5, 1.5) as f32, rng.range(-0.5, 1.5) as f32] } else { [rng.unit() as f32 * 1.2 - 0.1, rng.unit() as f32 * 1.2 - 0.1, rng.unit() as f32 * 1.2 - 0.1] }).collect();
+        let cfg = cfg444(m, full, n);
+        let rgb = Rgb::new(px, npx, 1, TC::BT1886, CP::BT709).expect("len");
+        let mut w = Worst::new();
+        macro_rules! one {
+            ($t:ty) => {{
+                let enc: Result<Yuv<$t>, _> = if ci % 2 == 0 { Yuv::try_from((&rgb, cfg)) } else { Yuv::try_from((rgb.clone(), cfg)) };
+                if let Ok(yuv) = enc {
+                    if let Ok(dec) = Rgb::try_from(&yuv) {
+                        n_img.fetch_add(1, Relaxed);
+                        for i in 0..npx.min(dec.data().len()) {
+                            let t = [u32::cast_from(yuv.data()[0].p(i, 0)), u32::cast_from(yuv.data()[1].p(i, 0)), u32::cast_from(yuv.data()[2].p(i, 0))];
+                            let want = ypbpr_to_rgb(m, normalise(t, n as u32, full));
+                            for c in 0..3 {
+                                w.upd((dec.data()[i][c] as f64 - want[c]).abs(), (t, c, dec.data()[i][c], want[c]));
+                            }
+                        }
+                    }
+                }
+            }};
+        }
+        one!(u16);
+        if n == 8 {
+            one!(u8);
+        }
+        if !(w.err <= TOL_C01) {
+            if let Some((t, c, got, want)) = w.at {
+                ev::violation(
+                    format!("C01|decode-accuracy|encoder-output|{m:?}|{}|n={n}", if full { "full" } else { "limited" }),
+                    format!("decoding an image produced by the library's encoder: codes {t:?} component {c} decode to {got:e}, H.273 gives {want:e}"),
+                    J::obj().set("kind", "decode").set("matrix", format!("{m:?}")).set("full", full).set("n", n).set("u8", false).set("yuv", t).set("note", "the image was produced by Yuv::try_from((Rgb, cfg)), not by Yuv::new"),
+                );
+            }
+        }
+    });
+    ev::observe("decoded_encoder_outputs", n_img.load(Relaxed));
+    ev::add_evals(n_img.load(Relaxed) * 512);
+}
+
 pub fn c01(ctx: &Ctx) {
     run_decode(ctx, "C01", false);
     layout_stratum(ctx, false);
+    decode_encoder_output(ctx);
 }
 pub fn c08(ctx: &Ctx) {
     run_decode(ctx, "C08", true);
@@ -1068,6 +1126,112 @@ pub fn c02(ctx: &Ctx) {
                 ),
         );
     });
+    // images without pixels keep the requested dimensions and config
+    for (w, h) in [(0usize, 0usize), (0, 1), (0, 8), (0, 1080), (1, 0), (6, 0), (1920, 0)] {
+        for ss in [(0u8, 0u8), (1, 0), (1, 1)] {
+            if w % (1 << ss.0) != 0 || h % (1 << ss.1) != 0 {
+                continue;
+            }
+            let (m, full, n) = cfgs[(w + h + ss.0 as usize) % cfgs.len()];
+            let cfg = YuvConfig { subsampling_x: ss.0, subsampling_y: ss.1, ..cfg444(m, full, n) };
+            let rgb = Rgb::new(Vec::new(), w, h, TC::SRGB, CP::BT709).expect("0 pixels");
+            let outs: [Result<(usize, usize, YuvConfig), String>; 2] = [
+                ev::guarded(|| Yuv::<u8>::try_from((&rgb, YuvConfig { bit_depth: 8, ..cfg })).map(|y| (y.width(), y.height(), y.config()))).and_then(|r| r.map_err(|e| format!("{e:?}"))),
+                ev::guarded(|| Yuv::<u16>::try_from((rgb.clone(), cfg)).map(|y| (y.width(), y.height(), y.config()))).and_then(|r| r.map_err(|e| format!("{e:?}"))),
+            ];
+            for (k, o) in outs.into_iter().enumerate() {
+                let want_cfg = if k == 0 { YuvConfig { bit_depth: 8, ..cfg } } else { cfg };
+                evals.fetch_add(1, Relaxed);
+                if o != Ok((w, h, want_cfg)) {
+                    ev::violation(
+                        format!("C02|config-or-dims|no-pixels|{m:?}"),
+                        format!("encoding a {w}x{h} image (subsampling {ss:?}) gives {o:?}; requested {w}x{h} {want_cfg:?}"),
+                        J::obj().set("kind", "encode-empty").set("w", w).set("h", h).set("ss", [ss.0, ss.1]),
+                    );
+                }
+            }
+        }
+    }
+    // subsampled, multi-row frames of video-like heights (the N x 1 images above cannot show how rows and chroma
+    // rows are distributed): every luma code is the nearest code of its pixel, every chroma code the nearest code of
+    // one of the pixels of its block
+    {
+        let heights: [usize; 10] = [720, 360, 540, 1080, 516, 288, 1200, 900, 68, 2160];
+        let sss: [(u8, u8); 5] = [(1, 1), (0, 1), (1, 0), (2, 2), (1, 1)];
+        let nfr = AtomicU64::new(0);
+        ev::par_ranges("C02", cfgs.len() as u64, 1, |_w, a, _b| {
+            let ci = a as usize;
+            if ctx.flag("lite") && ci % 9 != (ctx.seed % 9) as usize {
+                return;
+            }
+            let (m, full, n) = cfgs[ci];
+            let mut rng = Rng::new(ctx.seed, 0x0C02_5B5B + a);
+            let nh = if ctx.tier == crate::Tier::Thorough { 10 } else { 9 };
+            let (w, h, ss) = (128usize, heights[(ci + ctx.seed as usize) % nh], sss[(ci / 3) % 5]);
+            let px: Vec<[f32; 3]> = (0..w * h).map(|_| [rng.range(-0.1, 1.1) as f32, rng.range(-0.1, 1.1) as f32, rng.range(-0.1, 1.1) as f32]).collect();
+            let cfg = YuvConfig { subsampling_x: ss.0, subsampling_y: ss.1, ..cfg444(m, full, n) };
+            let rgb = Rgb::new(px.clone(), w, h, TC::BT1886, CP::BT709).expect("len");
+            let yuv: Yuv<u16> = match Yuv::try_from((&rgb, cfg)) {
+                Ok(y) => y,
+                Err(e) => {
+                    ev::violation(format!("C02|encode-error|{m:?}"), format!("{e:?} for a {w}x{h} frame, subsampling {ss:?}"), J::Null);
+                    return;
+                }
+            };
+            nfr.fetch_add(1, Relaxed);
+            let (cw, ch) = (w >> ss.0, h >> ss.1);
+            let ok_dims = yuv.width() == w && yuv.height() == h && yuv.config() == cfg && yuv.data()[0].cfg.width == w && yuv.data()[0].cfg.height == h && (1..3).all(|p| yuv.data()[p].cfg.width == cw && yuv.data()[p].cfg.height == ch);
+            if !ok_dims {
+                ev::violation(format!("C02|config-or-dims|subsampled|{m:?}"), format!("{w}x{h} frame, subsampling {ss:?}: output {}x{} planes {:?}", yuv.width(), yuv.height(), (0..3).map(|p| (yuv.data()[p].cfg.width, yuv.data()[p].cfg.height)).collect::<Vec<_>>()), J::Null);
+                return;
+            }
+            let maxv = ((1u64 << n) - 1) as f64;
+            let tol = 0.5 + 1e-6 * (1u64 << n) as f64;
+            let ideal = |i: usize| -> [f64; 3] {
+                let q = quantise_ideal(rgb_to_ypbpr(m, px64(px[i])), n as u32, full);
+                [q[0].clamp(0.0, maxv), q[1].clamp(0.0, maxv), q[2].clamp(0.0, maxv)]
+            };
+            let mut bad: Option<(usize, usize, usize, u16)> = None;
+            'o: for y in 0..h {
+                for x in 0..w {
+                    let got = yuv.data()[0].p(x, y);
+                    if !((got as f64 - ideal(y * w + x)[0]).abs() <= tol) {
+                        bad = Some((0, x, y, got));
+                        break 'o;
+                    }
+                }
+            }
+            if bad.is_none() {
+                'c: for p in 1..3 {
+                    for cy in 0..ch {
+                        for cx in 0..cw {
+                            let got = yuv.data()[p].p(cx, cy);
+                            let mut ok = false;
+                            for by in 0..(1usize << ss.1) {
+                                for bx in 0..(1usize << ss.0) {
+                                    let i = ((cy << ss.1) + by) * w + (cx << ss.0) + bx;
+                                    ok |= (got as f64 - ideal(i)[p]).abs() <= tol;
+                                }
+                            }
+                            if !ok {
+                                bad = Some((p, cx, cy, got));
+                                break 'c;
+                            }
+                        }
+                    }
+                }
+            }
+            if let Some((p, x, y, got)) = bad {
+                ev::violation(
+                    format!("C02|subsampled-frame|{m:?}|{}|n={n}", if full { "full" } else { "limited" }),
+                    format!("{w}x{h} frame encoded with subsampling {ss:?}: plane {p} sample ({x},{y}) = {got} is not the nearest code of {}", if p == 0 { "its pixel" } else { "any pixel of its block" }),
+                    J::obj().set("kind", "encode-frame").set("matrix", format!("{m:?}")).set("full", full).set("n", n).set("w", w).set("h", h).set("ss", [ss.0, ss.1]).set("plane", p).set("x", x).set("y", y),
+                );
+            }
+            evals.fetch_add((w * h + 2 * cw * ch) as u64, Relaxed);
+        });
+        ev::observe("subsampled_video_height_frames", nfr.load(Relaxed));
+    }
     // one thread, every config in shuffled orders: an encode must not depend on what was encoded before it
     {
         let mut rng = Rng::new(ctx.seed, 0x5E0_0002);
